@@ -3,6 +3,21 @@ NOT_APPLICABLE = {
     "C18": "interpolation and variable COLR are implemented in ufo2ft/fontTools.varLib; nanoemoji only passes records through, a contract would restate assignments and decide nothing (DESIGN.md section 6)",
 }
 CLAIMS = {
+    "C01": {
+        "text": "Partial. Machine-checked for all inputs: the viewBox->font-space affine (em-height scale, centring in the advance, y flip at the ascender, user transform last), the advance rule, the composition order of gradientTransform / bounding-box / font maps, mapping of linear and radial gradient geometry (with the uniform/residual split), the transform encoder, and the affine-covariance lemmas that turn 'geometry mapped by T' into 'same colour at corresponding points'. The composition of these links into 'same picture' is prose (DESIGN.md section 4 C01); SVG parsing, ufo2ft/fontTools compilation and rendering are assumed.",
+        "note": "A-real; picosvg SVG parsing/normal form, SVGLinearGradient/SVGRadialGradient.from_element, Affine2D.fromstring, ufo2ft COLR builder, fontTools compile and COLRv1 rendering semantics are assumed; tree traversal and lxml-facing functions are covered by the bounded tier only.",
+        "design_ref": "DESIGN.md section 4 C01",
+    },
+    "C14": {
+        "text": "ppem, pixel advance, horizontal centring, vertical placement within one pixel (two when nudged; for em <= 2*upem), the int8 nudge, format-17 record size and the contiguous offset table (loop invariant) are discharged for all inputs from the current source.",
+        "note": "A-real; precondition bitmap height == bitmap_resolution (what the driver's resvg step produces); em > 2*upem is only covered by the general clause; fontTools CBDT/sbix writers and PIL's PNG size are assumed.",
+        "design_ref": "DESIGN.md section 4 C14",
+    },
+    "C15": {
+        "text": "Index lookup (first match, 0xFFFF for currentColor, error when absent), opaque(), the v1 alpha split in PaintSolid.to_ufo_paint are discharged for all inputs. The slot assignment of uniq_sort_cpal_colors is decided by exhaustive symbolic execution of the real loops in a finite scope (<= 3 colours, indices 0..5, channels unconstrained) -- labelled bounded, not counted as proved.",
+        "note": "A-real; sorted() modelled by permutation/order/stability axioms; Color.fromstring is bounded-tier only; ufo2ft CPAL writer assumed.",
+        "design_ref": "DESIGN.md section 4 C15",
+    },
     "C16": {
         "text": "Every obligation generated from the current source of the transform encoder, the range predicates, the gettransform methods, the uniform/residual split and the gradient apply_transform/check_overflows is discharged by z3/cvc5 for all inputs (floats as reals).",
         "note": "A-real (floats as mathematical reals); trigonometric functions uninterpreted with the Pythagorean identities; picosvg Affine2D source interpreted as installed; fontTools raising on out-of-range Fixed is assumed.",
